@@ -55,7 +55,8 @@ struct Step {
   int ino = 0;        // inode operated on (files) where known
   int kind = 0;       // Ofd kind for fd operations
   int tag = 0;        // Ofd tag
-  const std::string *data = nullptr;  // bytes written (WRITE) or read (READ, points into reply)
+  const std::string *data = nullptr;  // bytes written (WRITE) or read (READ); valid during after_step
+  std::string datacopy;
   bool injected = false;              // result was an injected fault
 };
 
@@ -109,7 +110,12 @@ struct World {
   World() { memset(slot_used, 0, sizeof slot_used); }
 
   // ---------------------------------------------------------------- violations
-  void violation(const std::string &key, const std::string &text) { if (!aborted) { aborted = true; viol_key = key; viol_text = text; } }
+  static std::string keyfix(std::string k) { for (auto &c : k) if (c == ' ' || c == '\t' || c == '\n') c = '_'; return k; }
+  void violation(const std::string &key, const std::string &text) { if (!aborted) { aborted = true; viol_key = keyfix(key); viol_text = text; } }
+  // a violation after which the execution can meaningfully continue (used where several independent cases share one
+  // execution, so that every failing case is reported, not only the first)
+  std::vector<std::pair<std::string, std::string>> softs;
+  void soft_violation(const std::string &key0, const std::string &text) { std::string key = keyfix(key0); for (auto &s : softs) if (s.first == key) return; if (softs.size() < 64) softs.push_back({key, text}); }
 
   // ---------------------------------------------------------------- process table
   Proc *P(int vpid) { for (auto &p : procs) if (p && p->vpid == vpid && p->st != P_REAPED) return p.get(); return nullptr; }
